@@ -16,6 +16,7 @@ type Flow struct {
 	Body *ast.BlockStmt
 	// switchOf maps a case expression to its switch statement (to know whether it is tagless).
 	switchOf map[ast.Expr]*ast.SwitchStmt
+	predMap  map[*cfg.Block][]*cfg.Block
 }
 
 // noReturnCallees: calls that never return (block ends).
@@ -198,6 +199,47 @@ func (f *Flow) valueSource(b *cfg.Block, idx int, e ast.Expr) ast.Expr {
 	return e
 }
 
+// preds returns the predecessor map of the CFG (computed once).
+func (f *Flow) preds() map[*cfg.Block][]*cfg.Block {
+	if f.predMap == nil {
+		f.predMap = map[*cfg.Block][]*cfg.Block{}
+		for _, b := range f.G.Blocks {
+			for _, s := range b.Succs {
+				f.predMap[s] = append(f.predMap[s], b)
+			}
+		}
+	}
+	return f.predMap
+}
+
+// reachingAssigns collects, for a variable not assigned in block b, the last assignment in each
+// predecessor chain (up to depth blocks back). complete is false when some path has no assignment in range.
+func (f *Flow) reachingAssigns(b *cfg.Block, obj types.Object, depth int) (srcs []ast.Expr, complete bool) {
+	complete = true
+	seen := map[*cfg.Block]bool{b: true}
+	var walk func(x *cfg.Block, d int)
+	walk = func(x *cfg.Block, d int) {
+		ps := f.preds()[x]
+		if len(ps) == 0 || d == 0 {
+			complete = false
+			return
+		}
+		for _, pb := range ps {
+			if seen[pb] || !pb.Live {
+				continue
+			}
+			seen[pb] = true
+			if src := f.lastAssignIn(pb, len(pb.Nodes), obj); src != nil {
+				srcs = append(srcs, src)
+				continue
+			}
+			walk(pb, d-1)
+		}
+	}
+	walk(b, depth)
+	return
+}
+
 // PassEdge decides whether edge (b, i) establishes a guard.
 type PassEdge func(f *Flow, b *cfg.Block, i int) bool
 
@@ -227,6 +269,22 @@ func ErrGuard(pred func(f *Flow, call *ast.CallExpr) bool) PassEdge {
 			src := f.valueSource(b, len(b.Nodes)-1, x)
 			if call, ok := src.(*ast.CallExpr); ok && pred(f, call) {
 				return true
+			}
+			// the error may have been assigned on each branch of a preceding if/else: every reaching
+			// assignment (through predecessor blocks) must be a call accepted by pred
+			if obj := objOf(f.Info, x); obj != nil && f.lastAssignIn(b, len(b.Nodes)-1, obj) == nil {
+				srcs, complete := f.reachingAssigns(b, obj, 4)
+				if complete && len(srcs) > 0 {
+					all := true
+					for _, s := range srcs {
+						if call, ok := unparen(s).(*ast.CallExpr); !ok || !pred(f, call) {
+							all = false
+						}
+					}
+					if all {
+						return true
+					}
+				}
 			}
 		}
 		return false
